@@ -122,11 +122,12 @@ def _forged_raw():
         'id': st.sampled_from(BAD_IDS), 'value': _json(1), 'errors': st.sampled_from([False, True, 'x', None, [1]]),
         'meta': st.dictionaries(st.sampled_from(HOSTILE_KEYS), st.sampled_from(SENT), max_size=3)})
     wrong = st.sampled_from([None, 5, -1, 'abc', '', [], ['c0'], [['c0']], [{'a': 1}], {}, {'a': 1}, {'1': [2]}, True, 1.5, [None], [1, 'c0'], 'c0',
-                             {'cause': 1}, {'cause': 1, 'effects': 'x'}])
+                             {'cause': 1}, {'cause': 1, 'effects': 'x'}, [[1, 2]], [[None, 'x']], [['k', 1], [2, 3]], [[1.5, None]]])
     mutation = st.one_of(
         st.tuples(st.just('set'), st.sampled_from(['id', 'name', 'args', 'kwargs', 'success', 'failure', 'notify', 'channels', 'meta', 'value', 'errors', 'extra']), wrong),
         st.tuples(st.just('del'), st.sampled_from(['id', 'name', 'args', 'kwargs', 'success', 'failure', 'notify', 'channels', 'meta', 'value', 'errors']), st.none()),
         st.tuples(st.just('set'), st.just('channels'), st.sampled_from([[['c0']], [{'a': 1}], [None], [1], 'c0', {'c0': 1}, [[]], ['c0', ['c1']], [[['c0']]], [True], 7, None])),
+        st.tuples(st.just('set'), st.just('meta'), st.sampled_from([[[1, 2]], [[None, 'x']], [['k', 1], [2, 3]], [[True, 0]], [[0.5, 'HX']], None, [], 'ab', 5, [['ab', 1]]])),
         st.tuples(st.just('set'), st.just('meta'), st.dictionaries(st.sampled_from(['cause', 'effects', 'complete_channels', 'success_channels', 'node_protocol', 'value', 'stopped']), st.sampled_from(SENT), min_size=1, max_size=3)),
         st.tuples(st.just('trunc'), st.integers(0, 400), st.none()),
         st.tuples(st.just('wrap'), st.sampled_from(['list', 'str', 'num', 'null', 'nest']), st.none()),
@@ -165,7 +166,7 @@ def _forged_raw():
 
 def _forged():
     return st.fixed_dictionaries({'victim': st.sampled_from(['B', 'B', 'A0']), 'when': st.sampled_from(['before', 'after']),
-                                  'raw': _forged_raw(), 'chase': st.booleans()})
+                                  'raw': _forged_raw(), 'chase': st.sampled_from([True, True, True, False])})
 
 
 def _spec(tier):
@@ -240,7 +241,7 @@ class C19(Prop):
                    'hostile packets are delimiter-terminated; an unterminated hostile packet legitimately garbles what follows on that connection',
                    'result order of several coroutine handlers of one event is not asserted',
                    'Manager._tasks of the simulated processes is an insertion-ordered double of the set (determinism of replays)')
-    budget = {'quick': (600, 4), 'thorough': (5000, 16)}
+    budget = {'quick': (400, 4), 'thorough': (4000, 16)}
 
     def setup(self):
         driver.quiet_process()
